@@ -366,3 +366,22 @@ Proof.
   destruct (Nat.ltb max_name_len (List.length (unescape_tag (fst mt')))); [reflexivity|].
   rewrite H2. destruct (parse_fields d c fstr); [|reflexivity]. cbn [bind]. rewrite H3. reflexivity.
 Qed.
+
+(* ------------------------------------------------------------------------------------------------ *)
+(* the block reader: cutting a body at a newline does not change the rows it denotes *)
+Lemma split_lines_aux_cut : forall a cur b,
+  split_lines_aux cur (a ++ c_nl :: b) = split_lines_aux cur (a ++ [c_nl]) ++ split_lines b.
+Proof.
+  induction a as [|c r IH]; intros cur b.
+  - cbn [app split_lines_aux]. rewrite N.eqb_refl. reflexivity.
+  - cbn [app split_lines_aux]. destruct (c =? c_nl)%N.
+    + rewrite IH. reflexivity.
+    + apply IH.
+Qed.
+
+Lemma rows_cut_at_newline : forall d c a b,
+  fst (parse_batch d c (a ++ c_nl :: b)) = fst (parse_batch d c (a ++ [c_nl])) ++ fst (parse_batch d c b).
+Proof.
+  intros d c a b. rewrite !batch_rows_exact. unfold split_lines. rewrite split_lines_aux_cut.
+  apply flat_map_app.
+Qed.
